@@ -274,6 +274,11 @@ func genLife(seed int64, allow map[string]bool) *Scenario {
 			}
 			hp.Inj = append(hp.Inj, Inj{At: at, Ops: ops})
 		}
+		if b.sc.Mode == "mtt" && r.Intn(3) == 0 && len(b.ids) < b.sc.N {
+			// MTT: the competition layer moves a player in with a batch update right after the hand has been reset
+			id := b.newID()
+			hp.Inj = append(hp.Inj, Inj{At: "g:continue.reset", Ops: []Op{{Op: "update", Joins: []JoinSpec{{ID: id, Seat: -1, Chips: 20}}}, {Op: "join", ID: id}}})
+		}
 		if r.Intn(10) == 0 {
 			hp.WithholdFin = 1
 		}
